@@ -21,6 +21,7 @@ def clause(ex, st, contract, node, frame_vars, old=None):
     frame_vars: names visible to the clause (params, ghosts, result)."""
     from .engine import Exec
     sub = Exec(ex.eng, ex.fr, total=True, modname=None, specmod=contract.specmod)
+    sub.clause_module = contract.module     # sentinels of the target's module may be named in clauses
     saved_old = st.old
     st.frames.append(frame_vars)
     if old is not None:
